@@ -661,7 +661,8 @@ func genHostileFont(rng *rand.Rand) ([]byte, string) {
 		keys := []string{"FontType", "FontName", "FontInfo", "version", "Notice", "FullName", "ItalicAngle", "isFixedPitch", "UnderlinePosition", "FontMatrix", "Encoding",
 			"Private", "BlueValues", "OtherBlues", "BlueScale", "BlueShift", "BlueFuzz", "StdHW", "StdVW", "ForceBold", "lenIV", "Subrs", "CharStrings", "PaintType", "FontBBox"}
 		vals := []string{"5", "(str)", "/name", "[ 1 (a) /b ]", "true", "1e308", "-9223372036854775808", "[ ]", "<< >>", "256 array", "{ }", "257 array", "255 array",
-			"[ 1 2 3 4 5 6 7 ]", "[ (a) (b) (c) (d) (e) (f) ]", "1 array dup dup 0 exch put", "currentfile", "mark", "0 dict", "65536 string", "StandardEncoding", "systemdict"}
+			"[ 1 2 3 4 5 6 7 ]", "[ (a) (b) (c) (d) (e) (f) ]", "1 array dup dup 0 exch put", "currentfile", "mark", "0 dict", "65536 string", "StandardEncoding", "systemdict",
+			"[ 257 { /a } repeat ]", "[ 300 { /.notdef } repeat ]", "[ 256 { /A } repeat /B ]", "[ 1000 { /x } repeat ]", "[ 255 { /a } repeat ]", "[ 256 { (a) } repeat ]", "[ 65535 { /a } repeat ]"}
 		key := keys[rng.IntN(len(keys))]
 		val := vals[rng.IntN(len(vals))]
 		s := string(data)
@@ -726,7 +727,13 @@ func genHostileAFM(rng *rand.Rand) []byte {
 		case 5:
 			lines[li] = "KPX a b " + hostileNum[rng.IntN(len(hostileNum))]
 		case 6:
-			lines[li] = "StartCharMetrics " + hostileNum[rng.IntN(len(hostileNum))]
+			// the counts that section keywords announce (nothing has to be reserved for them)
+			kw := []string{"StartCharMetrics", "StartKernPairs", "StartKernPairs0", "StartKernPairs1", "StartKernData", "StartTrackKern", "StartComposites", "StartFontMetrics", "StartDirection"}[rng.IntN(9)]
+			cnt := hostileNum[rng.IntN(len(hostileNum))]
+			if rng.IntN(2) == 0 {
+				cnt = []string{"2305843009213693952", "4611686018427387904", "1099511627776", "68719476736", "4294967296", "2147483648", "1152921504606846976", "576460752303423488"}[rng.IntN(8)]
+			}
+			lines[li] = kw + " " + cnt
 		}
 	}
 	return []byte(strings.Join(lines, "\n"))
